@@ -1,5 +1,6 @@
 import Rustemo.Model.Cert
 import Rustemo.Model.Canon
+import Rustemo.Model.CertComplete
 /-!
 # Certificates for tables driven by the GLR engine (right-nulled tables included)
 
@@ -76,5 +77,34 @@ def Cert.glrLayout (g : Grammar) (t : Table) : Bool :=
   match t.layoutState with
   | none => true
   | some ls => (autosOf g t).any (fun au => au.start == ls) && Cert.total g t ls
+
+/-! ## completeness side: every right-nulled reduction is in the table, transitions are functions -/
+
+/-- every item whose rest is nullable has its (right-nulled) reduce entry for each of its lookaheads; a
+    completed augmented item has Accept on STOP -/
+def Cert.reduceRNOk (g : Grammar) (t : Table) (nul : List Nat) : Bool :=
+  t.forStates fun i st => st.items.all fun it =>
+    match g.prods[it.prod]? with
+    | none => false
+    | some pr =>
+      !((pr.rhs.drop it.dot).all fun Y => nul.contains Y) ||
+      (if g.isAug it.prod then (it.dot != pr.rhs.length || (t.cell i 0).contains .accept)
+       else it.la.all fun a => (t.cell i a).contains (.reduce it.prod it.dot))
+
+def isShift : Action → Bool
+  | .shift _ => true
+  | _ => false
+
+/-- at most one shift per cell -/
+def Cert.shiftDetOk (t : Table) : Bool :=
+  t.forStates fun _ st => (List.range st.actions.size).all fun a =>
+    decide (((st.actions.getD a []).filter isShift).length ≤ 1)
+
+/-- the completeness certificate for GLR tables: `Cert.complete` without "at most one action per cell", with
+    the right-nulled reduce entries demanded and shifts deterministic -/
+def Cert.completeRN (g : Grammar) (t : Table) : Bool :=
+  let c := Canon.mkCtx g
+  Cert.firstOk g c && Cert.closureOk g c t && Cert.transOk g t && Cert.reduceRNOk g t c.nul &&
+  Cert.grammarOk g t && Cert.shiftDetOk t
 
 end Rustemo
